@@ -164,8 +164,8 @@ func genC08(tier string) []Scenario {
 			if n >= 7 {
 				b = 0
 			}
-			if !th && c >= 3 && n > 7 {
-				continue // 3c+2 items on 3 workers: thorough tier
+			if !th && c >= 3 && n >= 7 {
+				continue // 2c+1 and 3c+2 items on 3 workers: thorough tier
 			}
 			if th && n <= 4 {
 				b = unbounded
@@ -211,6 +211,9 @@ func genC08(tier string) []Scenario {
 		n := 2*eff + 1
 		if n > 5 {
 			n = 5
+		}
+		if eff >= 3 && !th {
+			n = 4
 		}
 		b := 2
 		if eff >= 2 {
